@@ -90,6 +90,10 @@ func cmdFunc(args []string) {
 				fmt.Println("ERROR", firstLines(r.Err, 8))
 			}
 			dischargeAll(r.Obligations, *timeout, 0, true)
+			for _, o := range vacuousCovers(r.Obligations) {
+				fmt.Printf("VACUOUS %s\n", o.Name)
+				bad++
+			}
 			for _, o := range r.Obligations {
 				fmt.Printf("%-8s %-10s %5dms %s\n", o.Result, o.Solver, o.Ms, o.Name)
 				if o.Result != "unsat" {
@@ -113,10 +117,6 @@ func cmdFunc(args []string) {
 			for _, o := range r.Obligations {
 				mark := "ok  "
 				if o.Kind == "vacuity" {
-					if o.Result == "unsat" {
-						fmt.Printf("VACUOUS %s\n", o.Name)
-						bad++
-					}
 					continue
 				}
 				if o.Result != "unsat" {
